@@ -81,6 +81,8 @@ func aliasChains(c *Ctx) []chainSite {
 func runC14(c *Ctx) {
 	c.rule("alias-first", "in every chain containing the alias mangler it is the first, unconditional element (so the field doubling happens before flattening, re-casing and string casting)", 4)
 	c.rule("alias-tags", "the alias mangler is constructed with the documented tag list: env (dials, dialsenv), flag (dials, dialsflag), pflag (dials, dialspflag, dialspflagshort), ez file decoder (dials)", 4)
+	c.rule("alias-all-tags", "the loops of AliasMangler.Mangle (collecting the <tag>alias values, rewriting the copied field's tags) end only by exhaustion or an error return", 2)
+	c.rule("ez-wrap-always", "the decoder the ez entry point hands to its file source is, on every feasible path, the transforming decoder whose chain starts with the unconditional alias mangler", 1)
 	c.rule("either-or", "AliasMangler.Unmangle with two copies returns an error naming the field exactly when both are set; every value it returns from the scan was tested set (or, after the scan, is an unset copy)", 3)
 	c.rule("nil-test-total", "every 'is set' test in AliasMangler.Unmangle goes through one predicate, and that predicate never calls reflect.Value.IsNil on a kind that is not nil-able", 2)
 	c.rule("alias-recurses", "AliasMangler.ShouldRecurse is the constant true (both the original and the alias copy of a struct field are expanded)", 1)
@@ -117,6 +119,25 @@ func runC14(c *Ctx) {
 	}
 	c.analysed(relName(mg))
 	c14AliasUnmangle(c)
+	c14EzWrapAlways(c, "ez-wrap-always")
+	// every alias tag is rewritten: the loops of Mangle end only by exhaustion (or an error return)
+	nl := 0
+	for _, h := range loopHeaders(mg) {
+		nl++
+		ex := earlyLoopExits(mg, h, true)
+		pos := mg.Pos()
+		if len(ex) > 0 {
+			for _, i := range ex[0].Instrs {
+				if i.Pos().IsValid() {
+					pos = i.Pos()
+				}
+			}
+		}
+		c.check(len(ex) == 0, "alias-all-tags", relName(mg)+"#loop#"+itoa(nl), pos, "the loop visits every tag / alias (no break, no non-error return)", "a loop of AliasMangler.Mangle can stop before all alias tags were handled: a field aliased only through a later (source-specific) alias tag gets no working alias")
+	}
+	if nl == 0 {
+		c.bad("alias-all-tags", relName(mg), mg.Pos(), "AliasMangler.Mangle has no loop over the alias tags")
+	}
 
 	// ---- alias-recurses -------------------------------------------------------------
 	okR := true
@@ -642,4 +663,82 @@ func c14AliasUnmangle(c *Ctx) {
 		c.check(okT, "either-or", relName(um)+"#scan-returns-set", r.Pos(), "the scan returns the copy it just tested set", "the scan returns a value other than the one it tested set")
 	}
 
+}
+
+// c14EzWrapAlways: the decoder the ez entry points hand to the file source is
+// the transforming decoder whose chain starts with the alias mangler, on every
+// feasible path: an edge that would pass the bare decoder on is only accepted
+// when its guard is `len(manglers) > 0 == false` for a list that provably has
+// an unconditional element.
+func c14EzWrapAlways(c *Ctx, rule string) {
+	w := c.W
+	ez := w.fn("ez", "ConfigFileEnvFlagDecoderFactoryParams")
+	fs := w.fn("ez", "fileSource")
+	if !c.need(ez != nil && fs != nil, "ez.ConfigFileEnvFlagDecoderFactoryParams / ez.fileSource") {
+		return
+	}
+	isWrap := func(v ssa.Value) bool {
+		ci, ok := v.(*ssa.Call)
+		if !ok || calleeFullName(ci) != modPath+"/sourcewrap.NewTransformingDecoder" {
+			return false
+		}
+		els, ok := sliceElems(ci.Call.Args[1], 0)
+		if !ok || len(els) == 0 {
+			return false
+		}
+		return classifyElem(els[0].V).Type == "transform.AliasMangler" && !els[0].Conditional
+	}
+	n := 0
+	for _, call := range callsToFn(ez, fs) {
+		n++
+		arg := call.Common().Args[1]
+		bad := ""
+		var visit func(v ssa.Value, depth int)
+		visit = func(v ssa.Value, depth int) {
+			if isWrap(v) || depth > 4 {
+				return
+			}
+			ph, ok := v.(*ssa.Phi)
+			if !ok {
+				bad = "the file source can receive " + canon(v) + ", which is not the alias-wrapped decoder"
+				return
+			}
+			for ei, e := range ph.Edges {
+				if isWrap(e) {
+					continue
+				}
+				if inner, ok := e.(*ssa.Phi); ok {
+					visit(inner, depth+1)
+					continue
+				}
+				// the bare decoder flows in over this edge: the edge must be infeasible
+				p := ph.Block().Preds[ei]
+				iff, ok := p.Instrs[len(p.Instrs)-1].(*ssa.If)
+				feasible := true
+				if ok {
+					if cmp, ok := iff.Cond.(*ssa.BinOp); ok && cmp.Op == token.GTR && p.Succs[1] == ph.Block() {
+						if z, ok := constInt(cmp.Y); ok && z == 0 {
+							if l, ok := cmp.X.(*ssa.Call); ok && calleeFullName(l) == "builtin.len" {
+								if els, ok := sliceElems(l.Call.Args[0], 0); ok {
+									for _, el := range els {
+										if !el.Conditional {
+											feasible = false // the list always has this element: len > 0 cannot be false
+										}
+									}
+								}
+							}
+						}
+					}
+				}
+				if feasible {
+					bad = "the bare decoder " + canon(e) + " reaches the file source when no other mangler is requested: aliases in the config file are silently ignored (and a file giving both names is accepted)"
+				}
+			}
+		}
+		visit(arg, 0)
+		c.check(bad == "", rule, relName(ez)+"#file-decoder", call.Pos(), "the file source always gets the decoder wrapped with the alias mangler first", bad)
+	}
+	if n == 0 {
+		c.bad(rule, relName(ez), ez.Pos(), "no fileSource call found in the ez entry point")
+	}
 }
